@@ -15,7 +15,9 @@ NO_SHRINK = True
 
 def meta_from_lines(lines):
     reuse = not any(l.startswith(("movector 2", "moveassign 2")) for l in lines)
-    return {"kind": "reuse" if reuse else "move", "ref": 1, "dst": 0 if reuse else 2, "desc": "corpus",
+    tag = [l for l in lines if l.startswith("#reinit ")]
+    return {"kind": "reuse" if reuse else "move", "ref": 1, "dst": 0 if reuse else 2,
+            "desc": "corpus" + (" (%s)" % tag[0].split()[1] if tag else ""),
             "source_event": any(l.startswith(("destroy", "create")) for l in lines)}
 
 
@@ -51,6 +53,26 @@ def oracle(case, impl):
             if len(fails) > 2:
                 break
     return fails
+
+
+def kf_c19_refused_load_keeps_header(case, impl):
+    """re-use by a load that is refused at the identification stage: only the header read-out (and so the bytes a
+    save() then writes) differs from the fresh object's, and only those; anything else is a different violation"""
+    desc = case.meta.get("desc", "")
+    if case.meta.get("kind") != "reuse" or not ("(ident)" in desc or "(badident)" in desc):
+        return False
+    o = split_objs(impl)
+    if "fault" in o:
+        return False
+    def after_mark(l):
+        idx = max((i for i, x in enumerate(l) if x.startswith("n 90 0 ")), default=-1)
+        return l[idx + 1:]
+    a, b = after_mark(o.get(case.meta["ref"], [])), after_mark(o.get(case.meta["dst"], []))
+    if len(a) != len(b):
+        return False
+    diff = [(x, y) for x, y in zip(a, b) if x != y]
+    return bool(diff) and all((x.startswith("n 104 ") and y.startswith("n 104 ")) or
+                              (x.startswith("b 102 ") and y.startswith("b 102 ")) for x, y in diff)
 
 
 def nontrivial(case):
@@ -144,10 +166,27 @@ def reuse_case(cid, rng, cfg, imgs):
     elif r < 0.55:
         im2, b2 = rng.choice(imgs)
         re = ["load str 0 " + hx(b2)]
-    else:
+    elif r < 0.75:
         # by file name, eagerly or lazily (the object may still own the stream of an earlier lazy load)
         im2, b2 = rng.choice(imgs)
         re = ["load file %d %s" % (rng.randint(0, 1), hx(b2))]
+    else:
+        # a load that fails or stops early: the image is cut inside the ELF header (identification intact), inside the
+        # identification, or somewhere later; or its identification is damaged. What a failed load leaves behind must
+        # not depend on the object's past either.
+        im2, b2 = rng.choice(imgs)
+        ehsize = 52 if b2[4] == 1 else 64
+        k = rng.choice(["hdr", "hdr", "ident", "later", "badident"])
+        if k == "hdr":
+            cut = b2[:rng.randint(16, ehsize - 1)]
+        elif k == "ident":
+            cut = b2[:rng.randint(0, 15)]
+        elif k == "later":
+            cut = b2[:rng.randint(ehsize, len(b2) - 1)]
+        else:
+            cut = bytearray(b2); cut[rng.choice([0, 1, 4, 5, 6])] ^= rng.choice([1, 3, 0x80]); cut = bytes(cut)
+        hist += ", then a load that is cut short or refused (%s)" % k
+        re = [rng.choice(["load str 0 ", "load file 0 ", "load file 1 "]) + hx(cut)]
     t = ["hashelf 6d61726b"] + re + ["obsall", "save"]
     for op in t:
         lines += ["obj 1", op, "obj 0", op]
